@@ -2,8 +2,14 @@
    splitting at an index, and the loop invariants (stored postings, unfilled index, residual
    as a sum of balancing values, frame, well-formedness, no Panic). *)
 From Coq Require Import List NArith ZArith Bool QArith Qcanon Lia.
-From Okv Require Import Base.Maps Base.Dec Model.Amount Model.Book Model.BookSpec
-  Proofs.BookA_Maps Proofs.BookA_Amount Proofs.BookA_Posting.
+From Okv Require Import Base.Maps.
+From Okv Require Import Base.Dec.
+From Okv Require Import Model.Amount.
+From Okv Require Import Model.Book.
+From Okv Require Import Model.BookSpec.
+From Okv Require Import Proofs.BookA_Maps.
+From Okv Require Import Proofs.BookA_Amount.
+From Okv Require Import Proofs.BookA_Posting.
 Import ListNotations.
 Open Scope Qc_scope.
 
